@@ -10,7 +10,10 @@
 EXTENDS Integers, Sequences, FiniteSets, TLC
 
 CrsFields == {"crs"}
-FieldEq(f, a, b) == IF f \in CrsFields THEN a[1] = b[1] ELSE a = b
+\* rsign (grid specifications): the sign pattern of the resolution.  As the code stands GridSpec equality looks at tile shape, bin sizes (tile size times
+\* the ABSOLUTE pixel size), origin, flips and CRS - not at the sign of the resolution (a named deviation of the model from "field-wise": two grids
+\* whose tiles have other orientations compare equal).  No law of the property is broken by that alone; an equal pair must still hash equal.
+FieldEq(f, a, b) == IF f \in CrsFields THEN a[1] = b[1] ELSE IF f = "rsign" THEN TRUE ELSE a = b
 ExpectedEq(d1, d2) == /\ DOMAIN d1 = DOMAIN d2
                       /\ \A f \in DOMAIN d1 : FieldEq(f, d1[f], d2[f])
 
@@ -46,8 +49,10 @@ Families ==
     ixy |-> {[t |-> k, x |-> x, y |-> y] : k \in {"index2d"}, x \in {0, 1, 2}, y \in {0, 1, 2}},
     shape2d |-> {[t |-> k, x |-> x, y |-> y] : k \in {"shape2d"}, x \in {1, 2, 3}, y \in {1, 2, 3}},
     res |-> {[t |-> k, x |-> x, y |-> y] : k \in {"resolution"}, x \in {1, 2, -1}, y \in {1, -1, -2}},
-    gridspec |-> {[t |-> "gridspec", crs |-> c, tile |-> ts, res |-> r, origin |-> o, flip |-> f] :
-                   c \in {CrsA, CrsA2, CrsB}, ts \in {<<2, 2>>, <<2, 3>>}, r \in {1, 2}, o \in {<<0, 0>>, <<1, 0>>}, f \in {<<FALSE, FALSE>>, <<TRUE, FALSE>>}},
+    gridspec |-> {[t |-> "gridspec", crs |-> c, tile |-> ts, res |-> r, origin |-> o, flip |-> f, rsign |-> "default"] :
+                   c \in {CrsA, CrsA2, CrsB}, ts \in {<<2, 2>>, <<2, 3>>}, r \in {1, 2}, o \in {<<0, 0>>, <<1, 0>>}, f \in {<<FALSE, FALSE>>, <<TRUE, FALSE>>}}
+                 \cup {[t |-> "gridspec", crs |-> CrsA, tile |-> <<2, 3>>, res |-> r, origin |-> <<0, 0>>, flip |-> <<FALSE, FALSE>>, rsign |-> sg] :
+                   r \in {1, 2}, sg \in {"x+y+", "x-y-", "x-y+"}},
     gcp |-> {[t |-> "gcp", shape |-> s, pts |-> p, aff |-> a, crs |-> c] :
                s \in {<<4, 4>>, <<4, 5>>}, p \in {"m1", "m2"}, a \in {"id", "shift"}, c \in {CrsA, CrsB}} ]
 
